@@ -53,3 +53,63 @@ Proof. destruct (total steps) as [steps' H]. rewrite (forallb_step_ok_transfer t
 Theorem run_exec_rows_bounded tbl eps (steps:list (@stepobs Q)) :
   (List.length (fst (@run Q (QNum tbl) eps steps)) <= List.length steps)%nat.
 Proof. apply run_length. Qed.
+
+(* ---- loading_curve.power_from_soc on rationals: defined on [0,1] and within [0, max_power] ---- *)
+From SV Require Import Curve CurveProps.
+From Param Require Import Param.
+Definition curveQ2R (c:@curve Q) : @curve R :=
+  {| pts := map (fun p => (Q2R (fst p), Q2R (snd p))) (pts c); maxp := Q2R (maxp c) |}.
+Lemma ptsQ2R_rel (l:list (Q*Q)) : list_R _ _ (prod_R Q R QR Q R QR) l (map (fun p => (Q2R (fst p), Q2R (snd p))) l).
+Proof. induction l as [|[a b] l IH]; cbn; constructor; [constructor; reflexivity|exact IH]. Qed.
+Lemma curveQ2R_rel (c:@curve Q) : SV_o_Curve_o_curve_R Q R QR c (curveQ2R c).
+Proof. destruct c as [p m]. unfold curveQ2R; cbn. constructor; [apply ptsQ2R_rel|reflexivity]. Qed.
+
+Theorem lookup_exec_total_bounded tbl (c:@curve Q) (s:Q) :
+  wf_curve (curveQ2R c) -> maxp (curveQ2R c) = maxfold (pts (curveQ2R c)) -> nonneg (pts (curveQ2R c)) ->
+  (0 <= s)%Q -> (s <= 1)%Q ->
+  exists v, @power_from_soc Q (QNum tbl) c s = Ok v /\ (0 <= v)%Q /\ (v <= maxp c)%Q.
+Proof. intros Hwf Hmax Hnn H0 H1.
+  assert (Hs : (0 <= Q2R s <= 1)%R).
+  { split; [rewrite <- Q2R_0'|replace 1%R with (Q2R 1) by (apply RMicromega.Q2R_1)]; apply Qle_Rle; assumption. }
+  destruct (lookup_total (curveQ2R c) (Q2R s) Hwf Hs) as [vr Hvr].
+  pose proof (power_from_soc_transfer tbl c (curveQ2R c) s (curveQ2R_rel c)) as T.
+  rewrite Hvr in T. inversion T as [v ? Hv Hq|]; subst. unfold QR in Hv. subst vr.
+  exists v. split; [reflexivity|].
+  destruct (max_power_bounds_curve (curveQ2R c) (Q2R s) (Q2R v) Hwf Hmax Hnn Hs Hvr) as [A B].
+  split; apply Rle_Qle; [rewrite Q2R_0'|]; assumption. Qed.
+
+(* ---- Strategy.apply_battery_losses on rationals ---- *)
+Theorem losses_exec_bounds tbl soc cap rel fr fa s' :
+  (0 < cap)%Q -> (0 <= soc)%Q -> (0 <= rel)%Q -> (rel <= 100)%Q -> (0 <= fr)%Q -> (0 <= fa)%Q ->
+  @apply_losses Q (QNum tbl) soc cap rel fr fa = Ok s' -> (0 <= s')%Q /\ (s' <= soc)%Q.
+Proof. intros Hc Hs Hr0 Hr1 Hf Ha H.
+  pose proof (apply_losses_transfer tbl soc cap rel fr fa) as T. rewrite H in T. cbn [mapres] in T.
+  assert (H100 : Q2R 100 = 100%R) by (unfold Q2R; cbn; lra).
+  assert (A : (0 <= Q2R s' <= Q2R soc)%R).
+  { apply (losses_bounds (Q2R soc) (Q2R cap) (Q2R rel) (Q2R fr) (Q2R fa)); try exact T.
+    - rewrite <- Q2R_0'. apply Qlt_Rlt, Hc.
+    - rewrite <- Q2R_0'. apply Qle_Rle, Hs.
+    - split; [rewrite <- Q2R_0'|rewrite <- H100]; apply Qle_Rle; assumption.
+    - rewrite <- Q2R_0'. apply Qle_Rle, Hf.
+    - rewrite <- Q2R_0'. apply Qle_Rle, Ha. }
+  destruct A as [A B]. split; apply Rle_Qle; [rewrite Q2R_0'|]; assumption. Qed.
+
+(* ---- costs.find_prices on rationals: tariff class by the 100 000 kWh/a boundary ---- *)
+From SV Require Import Costs CostsProps.
+Lemma find_prices_expfree tbl : @find_prices R (RNumT tbl) = @find_prices R RNum. Proof. reflexivity. Qed.
+Theorem tariff_class_exec tbl (sh:@sheet Q) ft util e :
+  let f := snd (@find_prices Q (QNum tbl) sh ft util e) in
+  (ft = Some RLM -> f = RLM) /\ (ft <> Some RLM -> (f = SLP <-> (-(100000) <= e)%Q /\ (e <= 100000)%Q)).
+Proof. destruct (sheet_total sh) as [sh' Hsh].
+  assert (Hft : option_R _ _ SV_o_Costs_o_fee_R ft ft) by (destruct ft as [[|]|]; repeat constructor).
+  pose proof (SV_o_Costs_o_find_prices_R Q R QR _ _ (QNum_RNumT tbl) sh sh' Hsh ft ft Hft util _ eq_refl e _ eq_refl) as T.
+  rewrite (find_prices_expfree tbl) in T.
+  pose proof (tariff_class sh' ft (Q2R util) (Q2R e)) as P. cbv zeta in P |- *.
+  destruct (@find_prices Q (QNum tbl) sh ft util e) as [[a b] f], (@find_prices R RNum sh' ft (Q2R util) (Q2R e)) as [[a' b'] f'].
+  inversion T as [? ? _ ? ? Hf]; subst. assert (f = f') by (destruct Hf; reflexivity). subst f'. cbn [snd] in *.
+  destruct P as [P1 P2]. split; [exact P1|]. intros Hne. rewrite (P2 Hne).
+  assert (E : Q2R 100000 = 100000%R) by (unfold Q2R; cbn; lra).
+  split.
+  - intros Ha. assert (-100000 <= Q2R e <= 100000)%R as [L U] by (revert Ha; unfold Rabs; destruct Rcase_abs; lra).
+    split; apply Rle_Qle; [rewrite Q2R_opp, E|rewrite E]; assumption.
+  - intros [L U]. apply Qle_Rle in L, U. rewrite Q2R_opp, E in L. rewrite E in U. unfold Rabs; destruct Rcase_abs; lra. Qed.
